@@ -72,6 +72,7 @@ type G struct {
 	tnPre   string               // prefix of the type name the ops carry ("L"; finding classes use other prefixes)
 	customE map[string]bool      // local declarations with a hand-written Equal method
 	pools   map[string][]*ty.Val // value pools of local declarations that need special values
+	eqAlso  map[string]bool      // element types (by wire form) that also get the …eq consistency ops
 	discard *opw
 	noTwo   bool // the current element type gets no two-value min / max (its argument lists would be ambiguous)
 	force   int  // >= 0: the derive package every placement goes to (shadow-import packages)
@@ -222,6 +223,35 @@ func (g *G) lists(t *ty.Ty, pool []*ty.Val) []listT {
 			}
 			add("dups", 0, a, b, a, c, b)
 		}
+	}
+	// arrays of ordered basics: the four arrays over two values in lexicographic order (already sorted), reversed, and
+	// pairs where an earlier position is greater and a later one smaller
+	if u := g.env.Under(t); u.K == ty.Array && u.N >= 2 && g.env.Under(u.Elem).K == ty.Basic && len(g.vg.Pool(u.Elem)) > 2 {
+		in := g.vg.Pool(u.Elem)
+		mk := func(a, b *ty.Val) *ty.Val {
+			es := make([]*ty.Val, u.N)
+			for j := range es {
+				es[j] = in[0]
+			}
+			es[0], es[u.N-1] = a, b
+			return &ty.Val{K: ty.VArr, Elems: es}
+		}
+		lo, hi := in[0], in[1]
+		if l, ok := lessBasic(hi, lo); ok && l {
+			lo, hi = hi, lo
+		}
+		add("array-lex", 0, mk(lo, lo), mk(lo, hi), mk(hi, lo), mk(hi, hi))
+		add("array-lex", 0, mk(hi, hi), mk(hi, lo), mk(lo, hi), mk(lo, lo))
+		add("array-lex", 0, mk(hi, lo), mk(lo, hi))
+		add("array-lex", 1, mk(lo, hi), mk(hi, lo), mk(lo, lo))
+	}
+	// every value of a small integer kind, each once (a set must hold them all), in a scrambled order
+	if u := g.env.Under(t); u.K == ty.Basic && u.B == "int8" {
+		es := make([]*ty.Val, 256)
+		for j := range es {
+			es[j] = &ty.Val{K: ty.VInt, Int: fmt.Sprint((j*37+11)%256 - 128)}
+		}
+		add("all-values", 0, es...)
 	}
 	// slice-typed elements: orders in which lexicographic and length-first comparison disagree
 	if g.env.Under(t).K == ty.Slice {
@@ -589,6 +619,22 @@ func (g *G) elemPool(t *ty.Ty) []*ty.Val {
 		}
 		return pool
 	}
+	if u.K == ty.Array && u.N >= 2 && g.env.Under(u.Elem).K == ty.Basic {
+		// arrays that differ at TWO positions in opposite directions: the order is decided at the first one
+		in := g.vg.Pool(u.Elem)
+		if len(in) > 2 {
+			mk := func(a, b *ty.Val) *ty.Val {
+				es := make([]*ty.Val, u.N)
+				for j := range es {
+					es[j] = in[0]
+				}
+				es[0], es[u.N-1] = a, b
+				return &ty.Val{K: ty.VArr, Elems: es}
+			}
+			pool = append(pool, mk(in[1], in[1]), mk(in[2], in[0]), mk(in[1], in[2]), mk(in[2], in[1]))
+		}
+		return pool
+	}
 	if u.K != ty.Slice {
 		return pool
 	}
@@ -776,7 +822,7 @@ func (g *G) elemOps(i int, t *ty.Ty) {
 			}
 		}
 	}
-	if (floaty(env, t) || g.eqOnly || g.hasEqMethod(t)) && (g.want["contains"] || g.want["unique"] || g.want["set"] || g.want["union"] || g.want["intersect"]) {
+	if (floaty(env, t) || g.eqOnly || g.hasEqMethod(t) || g.eqAlso[t.Wire()]) && (g.want["contains"] || g.want["unique"] || g.want["set"] || g.want["union"] || g.want["intersect"]) {
 		g.ow = emit
 		// consistency with the emitted Equal, decided on the emitted functions themselves, NaN included
 		nl, items := g.nanLists(pool)
@@ -1325,7 +1371,11 @@ func main() {
 		&ty.Decl{Name: "UE2", Pkg: "ext", Under: ty.St(ty.F("A", b("int")), ty.F("B", b("string")))},
 		// two different instances of ONE generic struct (Lib 55 OptI = Opt[int], 56 OptP = Opt[*int]), the first
 		// ==-comparable, the second not: the struct is not comparable (Unique must not key a map by it)
-		&ty.Decl{Name: "G2", Pkg: "", Under: ty.St(ty.F("A", n(55)), ty.F("B", n(56)))})
+		&ty.Decl{Name: "G2", Pkg: "", Under: ty.St(ty.F("A", n(55)), ty.F("B", n(56)))},
+		// a named small integer kind (a set of them can hold 256 values), and a ==-comparable struct with a field whose
+		// name starts with an underscore (not the blank field: it takes part in == and in derived Equal)
+		&ty.Decl{Name: "Level", Pkg: "", Under: b("int8")},
+		&ty.Decl{Name: "UR", Pkg: "", Under: ty.St(ty.F("A", b("int")), ty.F("_rev", b("int"))), Priv: true})
 	if env.Decls[55].Name != "OptI" || env.Decls[56].Name != "OptP" || env.Decls[32].Name != "UE2" {
 		must(fmt.Errorf("gen.Lib: declarations 32 / 55 / 56 are not UE2 / OptI / OptP"))
 	}
@@ -1337,6 +1387,7 @@ func main() {
 	ui, wi := n(shadow0+9), n(shadow0+10)
 	rd, wd := n(shadow0+11), n(shadow0+12)
 	xue2, g2 := n(shadow0+13), n(shadow0+14)
+	level, ur := n(shadow0+15), n(shadow0+16)
 	nu64 := n(46)
 	localSrc := map[string]string{"RC": `
 func (this *RC) Compare(that *RC) int {
@@ -1418,14 +1469,15 @@ func (this CSH) Hash() int32         { return int32(len(this)) }
 		// Equal is coarser than the fields) as VALUE elements, behind pointers and slices and inside a struct;
 		// a recursive named slice as element of the two-value forms
 		n(31), p(n(31)), ty.Sl(n(31)), n(33), ty.Sl(rt),
-		xue2, g2}
+		xue2, g2,
+		b("int8"), level, ur, ty.Ar(3, b("uint8")), n(14)}
 	keys := []*ty.Ty{b("int"), b("string"), n(0), n(5), ty.Ar(2, b("int")), b("float64"), b("float32"), b("complex128"), n(2), b("uint64")}
 	// int32 = rune: a rune -> rune mapping must not be special-cased (negative, surrogate, > MaxRune results)
 	results := []*ty.Ty{b("int"), b("string"), p(n(5)), ty.Sl(b("int")), n(5), b("bool"), b("float64"), n(1), b("int32")}
 	cap, maxLen, nRandom := 6, 7, 8
 	if *thorough {
-		elems = append(elems, b("int8"), b("int32"), b("uint32"), ty.Sl(b("int8")),
-			ty.M(b("string"), b("int")), n(14), n(10), p(n(8)), n(20), n(16), ty.Sl(p(n(5))), n(11), ty.Sl(ty.Sl(b("byte"))), ty.Ar(2, ty.Sl(b("byte"))))
+		elems = append(elems, b("int32"), b("uint32"), ty.Sl(b("int8")),
+			ty.M(b("string"), b("int")), n(10), p(n(8)), n(20), n(16), ty.Sl(p(n(5))), n(11), ty.Sl(ty.Sl(b("byte"))), ty.Ar(2, ty.Sl(b("byte"))))
 		keys = append(keys, n(1), b("bool"), b("uint8"), n(14), ty.Ar(2, n(5)), b("complex64"))
 		results = append(results, p(n(6)), n(0), b("uint8"), ty.M(b("string"), b("int")))
 		cap, maxLen, nRandom = 10, 12, 40
@@ -1509,6 +1561,10 @@ func (this CSH) Hash() int32         { return int32(len(this)) }
 	for k := range folded {
 		acs = append(acs, &ty.Val{K: ty.VArr, Elems: []*ty.Val{folded[k], folded[(k+2)%len(folded)]}})
 	}
+	uiv2 := func(a, r int64) *ty.Val {
+		return &ty.Val{K: ty.VStruct, Elems: []*ty.Val{{K: ty.VInt, Int: fmt.Sprint(a)}, {K: ty.VInt, Int: fmt.Sprint(r)}}}
+	}
+	g.eqAlso = map[string]bool{ur.Wire(): true}
 	var rds, wds []*ty.Val
 	for k, a := range []int64{0, 2, 5, -3, 7, 2, 100, -40} {
 		r := uiv(a, []string{"", "a"}[k/5%2])
@@ -1516,6 +1572,7 @@ func (this CSH) Hash() int32         { return int32(len(this)) }
 		wds = append(wds, &ty.Val{K: ty.VStruct, Elems: []*ty.Val{r, {K: ty.VInt, Int: fmt.Sprint(k % 2)}}})
 	}
 	g.pools = map[string][]*ty.Val{"CS": folded, "CSH": folded, "UI": uis, "WI": wis, "RD": rds, "WD": wds,
+		"UR":                {uiv2(0, 0), uiv2(0, 1), uiv2(1, 0), uiv2(1, 7), uiv2(-1, 0), uiv2(0, -5)},
 		ty.Ar(2, ui).Wire(): ais, ty.Ar(2, csh).Wire(): acs,
 		// slices of CSH: not ==-comparable, so Unique buckets by the derived hash, which must ask every element's own Hash
 		ty.Sl(csh).Wire(): {slice([]*ty.Val{folded[0]}, 0), slice([]*ty.Val{folded[1]}, 0), nilv(), slice(nil, 0),
